@@ -156,7 +156,7 @@ def build(tier):
                      ("encompasses", "encompasses <=> subset"), ("join", "join_ranges denotes the union, fails exactly on separated ranges")):
             obs.append(vf.Ob("%s_%s" % (n, T), "C14", panic_prop="C17", what="Range<%s>::%s for all valid ranges" % (T, w)))
     coll = ""
-    ns = (1, 2, 3) if tier == "quick" else (1, 2, 3, 4)
+    ns = (1, 2) if tier == "quick" else (1, 2, 3)
     for n in ns:
         coll += COLL.replace("@N@", str(n)).replace("@POINTS@", ", ".join(["point()"] * n)).replace("@UNW@", str(n + 3))
         b = "%d point guides (every literal pattern is a point range: Pattern::from_literal), oracle any valid u8 range, membership checked for a symbolic value" % n
@@ -165,7 +165,7 @@ def build(tier):
         obs.append(vf.Ob("equal_range_%d" % n, "C14", complete=False, bound=b, panic_prop="C17", what="do_ranges_equal_range: true only if every value of the oracle is covered"))
         obs.append(vf.Ob("equal_range_complete_%d" % n, "C14", complete=False, bound=b + "; oracle of at most %d values" % n, panic_prop="C17", what="do_ranges_equal_range: true whenever every value of the oracle is covered"))
     src = src.replace("@COLL@", coll)
-    u = vf.KaniUnit("c14_ranges", {"src/lib.rs": src}, obs, deps={"itertools": "0.13"}, timeout_s=900, jobs=6, auto_files=[RF])
+    u = vf.KaniUnit("c14_ranges", {"src/lib.rs": src}, obs, deps={"itertools": "0.13"}, timeout_s=900 if tier == "quick" else 3000, jobs=6, auto_files=[RF])
     u.fragments = [vf.frag_record(fr[k]) for k in fr]
     u.rewrites = [{"rule": "R0", "before": "whole impl<T> Range<T>, MyMath impls", "after": "verbatim", "times": 5}]
     u.assumptions = ["Handler/ErrorEmitted/CompileError::Internal/Span are message carriers",
